@@ -480,6 +480,9 @@ ALIAS_CONTEXTS = [
     ('true loop {{ {} }}', 4, 5), ('try {{ {} }} except {{ }}', 3, 6),
     ('try {{ }} except {{ {} }}', 5, 6), ('if ( {} ) {{ }}', 0, 4),
     ('push ~ {{ {} }}', 1, 2),
+    # right after an explicit-width push (whose look-ahead decides whether the
+    # next symbol is a value or an instruction)
+    ('push1 x07 {}', 3, 4), ('op_push2 x0708 {}', 5, 6),
 ]
 
 
